@@ -12,6 +12,7 @@ import (
 	"encoding/hex"
 	"fmt"
 	"math/big"
+	"sort"
 	"sync"
 
 	"github.com/ethereum/go-ethereum/common"
@@ -205,6 +206,10 @@ func (m *Material) CoqLabel(v Val) string {
 	case "notg1":
 		return "None"
 	case "raw", "comb", "inf":
+		// by the bytes: a genuine value under another description is that value
+		if c := m.Canon(v); c.Kind == "share" || c.Kind == "key" {
+			return m.CoqLabel(c)
+		}
 		if !m.Decodes(v) {
 			return "None"
 		}
@@ -228,18 +233,67 @@ func (m *Material) ClassifyKey(ident, key []byte) string {
 	return "LOther"
 }
 
-// Canon replaces a "comb" value whose bytes coincide with one of its own share / key terms
-// (the other terms cancel, or are byte strings that are no group elements and count as the
-// point at infinity) by that term: the description of a value must say what the value is.
-func (m *Material) Canon(v Val) Val {
-	if v.Kind != "comb" {
+// Canon describes a value by the BYTES it produces. The kinds share / key / junk / empty / short
+// / notg1 say what their bytes are. Every other kind (a sum of terms at any nesting depth, raw
+// bytes, the encoded point at infinity) is computed first and then classified: bytes equal to a
+// genuine key or share (any key set, any keyper) for an identity that occurs in the value or for
+// the identity it is sent under are that genuine value; bytes equal to a junk term are that
+// term; everything else keeps its description and gets its label from the real decoder
+// (CoqLabel: another group element, or undecodable). So no combination of kinds - terms that
+// cancel, terms that are no group elements and count as the point at infinity, sums of sums -
+// can describe a valid value as an invalid one or the other way round.
+func (m *Material) Canon(v Val) Val { return m.CanonAt(v, "") }
+
+func (m *Material) leaves(v Val, idents map[string]bool, junk *[]Val) {
+	switch v.Kind {
+	case "share", "key":
+		idents[v.Ident] = true
+	case "junk":
+		idents[v.Ident] = true
+		*junk = append(*junk, v)
+	case "comb":
+		for _, t := range v.Terms {
+			m.leaves(t.Val, idents, junk)
+		}
+	}
+}
+
+// CanonAt is Canon for a value sent under the identity ident (hex; "" = none).
+func (m *Material) CanonAt(v Val, ident string) Val {
+	switch v.Kind {
+	case "share", "key", "junk", "empty", "short", "notg1":
 		return v
 	}
-	b := m.Bytes(v)
-	for _, t := range v.Terms {
-		tv := m.Canon(t.Val)
-		if (tv.Kind == "share" || tv.Kind == "key" || tv.Kind == "junk") && !t.Neg && string(m.Bytes(tv)) == string(b) {
-			return tv
+	b := string(m.Bytes(v))
+	idents := map[string]bool{}
+	var junk []Val
+	m.leaves(v, idents, &junk)
+	if ident != "" {
+		idents[ident] = true
+	}
+	ids := make([]string, 0, len(idents))
+	for id := range idents {
+		ids = append(ids, id)
+	}
+	sort.Strings(ids)
+	for _, id := range ids {
+		if _, err := hex.DecodeString(id); err != nil {
+			continue
+		}
+		for set := range m.Sets {
+			if g := (Val{Kind: "key", Set: set, Ident: id}); string(m.Bytes(g)) == b {
+				return g
+			}
+			for k := 0; k < m.N; k++ {
+				if g := (Val{Kind: "share", Set: set, Keyper: k, Ident: id}); string(m.Bytes(g)) == b {
+					return g
+				}
+			}
+		}
+	}
+	for _, g := range junk {
+		if string(m.Bytes(g)) == b {
+			return g
 		}
 	}
 	return v
@@ -248,6 +302,6 @@ func (m *Material) Canon(v Val) Val {
 // CanonMsg canonicalises every value of the message.
 func (m *Material) CanonMsg(msg *Msg) {
 	for i := range msg.Items {
-		msg.Items[i].Val = m.Canon(msg.Items[i].Val)
+		msg.Items[i].Val = m.CanonAt(msg.Items[i].Val, msg.Items[i].Ident)
 	}
 }
